@@ -10,9 +10,11 @@
  *   prec      its value, >= 0 ('.' alone means 0, p4)
  *   conv      one of d i u o x X c s p                          (p8)
  *
- * The text produced is always   [left pad] [prefix] [zeros] [digits | bytes] [right pad]
- * and is described by a layout (struct iso_layout); iso_len() is its total length and iso_char_at(k)
- * its k-th character (0-based).  All lengths are long long so that nothing overflows for int-sized
+ * The text produced is always the concatenation of five segments
+ *     0 [left pad]  1 [prefix]  2 [zeros]  3 [digits | bytes]  4 [right pad]
+ * and is described by a layout (struct iso_layout): iso_layout_seg_len(seg) / iso_layout_seg_char(seg, j)
+ * give length and j-th character of a segment; iso_len() is the total length and iso_char_at(k) the k-th
+ * character (0-based) of the concatenation, defined through iso_layout_locate(k) = (segment, offset).  All lengths are long long so that nothing overflows for int-sized
  * widths and precisions; whether the total fits the int return value is the caller's concern (p14 in
  * C11 7.21.6.1: the return value is the number of characters transmitted; more than INT_MAX is outside
  * what the interface can report).
@@ -73,6 +75,15 @@ static inline int iso_ndigits(unsigned long long mag, unsigned base)
         p *= base;
     }
     return n;
+}
+
+/* table of powers for loop invariants (which must be call-free expressions): pw[j] = base^j for
+ * 0 <= j <= ISO_MAXDIG, 0 when base^j does not fit 64 bits (then it exceeds every value) */
+static inline void iso_pow_init(unsigned long long *pw, unsigned base)
+{
+    pw[0] = 1;
+    for (int j = 1; j <= ISO_MAXDIG; j++)
+        pw[j] = (pw[j - 1] != 0 && pw[j - 1] <= ULLONG_MAX / base) ? pw[j - 1] * base : 0;
 }
 
 /* digit of weight base^s of mag */
@@ -136,8 +147,10 @@ static inline struct iso_layout iso_int_layout(unsigned flags, long long width, 
     /* ... or base: p6 '#': "For x (or X) conversion, a nonzero result has 0x (or 0X) prefixed to it." */
     if (base == 16 && (flags & ISO_F_HASH) && L.mag != 0)
         L.plen = 2, L.p0 = '0', L.p1 = upper ? 'X' : 'x';
-    L.nbody = nat;
-    L.zeros = ndig - nat;
+    /* the digits: ndig characters, the last `nbody` of them the digits of the magnitude, zeros before.  The
+     * number zero is written as the single digit 0 whenever at least one digit has to appear. */
+    L.nbody = nat ? nat : (ndig > 0 ? 1 : 0);
+    L.zeros = ndig - L.nbody;
     long long pad = iso_max(width - (L.plen + ndig), 0); /* p4: padded to the field width */
     L.lpad = L.rpad = 0;
     if (flags & ISO_F_MINUS)
@@ -162,8 +175,8 @@ static inline struct iso_layout iso_ptr_layout(unsigned flags, long long width, 
     L.chr = 0;
     int nat = iso_ndigits(v, 16);
     L.plen = 2, L.p0 = '0', L.p1 = 'x';
-    L.nbody = nat;
-    L.zeros = ISO_P_DIGITS - nat;
+    L.nbody = nat ? nat : 1;
+    L.zeros = ISO_P_DIGITS - L.nbody;
     long long pad = iso_max(width - (2 + ISO_P_DIGITS), 0);
     L.lpad = (flags & ISO_F_MINUS) ? 0 : pad;
     L.rpad = (flags & ISO_F_MINUS) ? pad : 0;
@@ -205,35 +218,58 @@ static inline long long iso_layout_len(const struct iso_layout *L)
     return L->lpad + L->plen + L->zeros + L->nbody + L->rpad;
 }
 
-/* k-th character of the text, as the int value the output callback receives for it when the
- * implementation passes plain `char`s (digits, signs, spaces are < 128, string bytes are passed as
- * (int)(char)byte by a callback of type void(void*, int) fed from a `const char *`); -1 beyond the end.
- * Callers compare modulo 256 where the signedness of char matters. */
-static inline int iso_layout_char_at(const struct iso_layout *L, long long k)
+/* length of segment seg (0 left pad, 1 prefix, 2 zeros, 3 digits/bytes, 4 right pad) */
+static inline long long iso_layout_seg_len(const struct iso_layout *L, int seg)
+{
+    return seg == 0 ? L->lpad : seg == 1 ? L->plen : seg == 2 ? L->zeros : seg == 3 ? L->nbody : seg == 4 ? L->rpad : 0;
+}
+
+/* j-th character of segment seg, as a value 0..255 (the callback receives the implementation's `char`
+ * converted to int: callers compare modulo 256) */
+static inline int iso_layout_seg_char(const struct iso_layout *L, int seg, long long j)
+{
+    switch (seg)
+    {
+    case 0:
+    case 4:
+        return ' ';
+    case 1:
+        return j == 0 ? L->p0 : L->p1;
+    case 2:
+        return '0';
+    default:
+        if (L->base) /* digits of the magnitude, most significant first */
+            return iso_digit_char(iso_digit(L->mag, L->base, L->nbody - 1 - j), L->upper);
+        if (L->str)
+            return (unsigned char)L->str[j];
+        return L->chr;
+    }
+}
+
+/* position k of the whole text -> (segment, offset); -1 beyond the end */
+static inline int iso_layout_locate(const struct iso_layout *L, long long k, long long *j)
 {
     if (k < 0)
         return -1;
-    if (k < L->lpad)
-        return ' ';
-    k -= L->lpad;
-    if (k < L->plen)
-        return k == 0 ? L->p0 : L->p1;
-    k -= L->plen;
-    if (k < L->zeros)
-        return '0';
-    k -= L->zeros;
-    if (k < L->nbody)
+    for (int seg = 0; seg < 5; seg++)
     {
-        if (L->base)
-            return iso_digit_char(iso_digit(L->mag, L->base, L->nbody - 1 - k), L->upper);
-        if (L->str)
-            return (unsigned char)L->str[k];
-        return L->chr;
+        long long n = iso_layout_seg_len(L, seg);
+        if (k < n)
+        {
+            *j = k;
+            return seg;
+        }
+        k -= n;
     }
-    k -= L->nbody;
-    if (k < L->rpad)
-        return ' ';
     return -1;
+}
+
+/* k-th character of the text; -1 beyond the end */
+static inline int iso_layout_char_at(const struct iso_layout *L, long long k)
+{
+    long long j = 0;
+    int seg = iso_layout_locate(L, k, &j);
+    return seg < 0 ? -1 : iso_layout_seg_char(L, seg, j);
 }
 
 /* ---- generic entry points -----------------------------------------------------------------------
@@ -279,20 +315,30 @@ static inline int iso_char_at(long long k, unsigned flags, long long width, int 
 }
 
 /* ---- the ghost recorder -------------------------------------------------------------------------
- * The output callback handed to the real code: counts, and remembers the g_k-th character.  No buffer,
- * so widths and precisions are unbounded; g_k is arbitrary, so a statement about the recorded character
- * is a statement about every character of the output. */
-#ifndef ISO_COUNT_T
-#define ISO_COUNT_T long long
-#endif
-ISO_COUNT_T g_count; /* characters emitted so far */
-ISO_COUNT_T g_k;     /* ghost index (set by the harness before the call) */
-int g_got;         /* the character emitted at position g_k */
+ * The output callback handed to the real code: counts, and remembers ONE character.  No buffer, so widths
+ * and precisions are unbounded.  Which character is chosen by a ghost index the harness fixes before the
+ * call; it is arbitrary, so a statement about the recorded character is a statement about every character
+ * of the output.  Two forms of index:
+ *   g_k            absolute position in the output;
+ *   (g_kseg,g_kj)  segment-relative: the code's emission events are labelled by the ghost variable g_seg,
+ *                  which injected ghost statements set in front of each output loop of the real function
+ *                  (values 0..4 in program order, never decreasing) and g_pos counts inside the segment.
+ *                  If every segment of the code has the ISO segment's length and every (segment, offset)
+ *                  character equals the ISO one, the two concatenations are the same text.  This form keeps
+ *                  sums of symbolic lengths out of the solver (the absolute form costs minutes there). */
+long long g_count; /* characters emitted so far */
+long long g_k;     /* ghost index, absolute (-1: unused) */
+int g_seg;         /* label of the segment being emitted */
+long long g_pos;   /* characters emitted in the current segment */
+int g_kseg;        /* ghost index, segment-relative */
+long long g_kj;
+int g_got;         /* the character emitted at the ghost index */
 static void iso_recorder(void *d, int c)
 {
     (void)d;
-    if (g_count == g_k)
+    if (g_count == g_k || (g_seg == g_kseg && g_pos == g_kj))
         g_got = c;
+    g_pos++;
     g_count++;
 }
 
